@@ -692,7 +692,73 @@ class Interp:
                             # a class-level container is one shared object: later reads and mutations see the same one
                             self.store[key] = v
                         return True, v
+                # a private attribute that the reference tree does not have (a new memo, flag or counter): the analysed histories start
+                # at a fresh object, so it holds what the constructor gives it
+                ref = getattr(self.idx, "reference_attrs", None)
+                if (self.auto_private and ref is not None and attr.startswith("_") and not attr.startswith("__")
+                        and not any(f"{c.name}.{attr}" in ref for c in self.idx.mro(cls))):
+                    for c in self.idx.mro(cls):
+                        init = c.methods.get("__init__")
+                        for st in (init.node.body if init else ()):
+                            tgt = st.targets[0] if isinstance(st, ast.Assign) and len(st.targets) == 1 else st.target if isinstance(st, ast.AnnAssign) else None
+                            if (isinstance(tgt, ast.Attribute) and tgt.attr == attr and isinstance(tgt.value, ast.Name) and tgt.value.id == "self"
+                                    and getattr(st, "value", None) is not None):
+                                val = st.value
+                                if isinstance(val, ast.Call) and isinstance(val.func, ast.Name) and val.func.id in ("dict", "list", "set", "OrderedDict") and not val.args and not val.keywords:
+                                    v = {"dict": {}, "OrderedDict": {}, "list": [], "set": []}[val.func.id]
+                                else:
+                                    try:
+                                        v = ast.literal_eval(val)
+                                    except (ValueError, SyntaxError):
+                                        try:
+                                            v = self._ctor_value(base, init, attr)
+                                        except Undecidable:
+                                            return False, None
+                                    if isinstance(v, set):
+                                        v = list(v)
+                                self.store[key] = v
+                                self.store.setdefault("__ctor_keys__", []).append(key)   # (a rule that models a new process drops these: the object is built again)
+                                return True, v
         return False, None
+
+    def _ctor_value(self, base, init, attr):
+        """what the constructor `init` leaves in the new private attribute `attr` of the object at store path `base`: its straight-line
+        local assignments are interpreted with every parameter bound to the attribute the constructor stores it in"""
+        busy = self.__dict__.setdefault("_ctor_busy", set())
+        if (base, attr) in busy:
+            raise Undecidable(f"constructor value of {attr}")
+        busy.add((base, attr))
+        try:
+            return self._ctor_value0(base, init, attr)
+        finally:
+            busy.discard((base, attr))
+
+    def _ctor_value0(self, base, init, attr):
+        a = init.node.args
+        params = [x.arg for x in a.args[1:]] + [x.arg for x in a.kwonlyargs]
+        kept = {}
+        for st in init.node.body:
+            if (isinstance(st, ast.Assign) and len(st.targets) == 1 and isinstance(st.targets[0], ast.Attribute) and isinstance(st.targets[0].value, ast.Name)
+                    and st.targets[0].value.id == "self" and isinstance(st.value, ast.Name) and st.value.id in params):
+                kept.setdefault(st.value.id, st.targets[0].attr)
+        frame = {"__self__": base}
+        for p_ in params:
+            if p_ not in kept:
+                frame[p_] = Residual(f"{base}.<constructor argument {p_}>")
+                continue
+            k = f"{base}.{kept[p_]}"
+            ok, v = self.lookup(k)
+            frame[p_] = v if ok else Residual(k)
+        for st in init.node.body:
+            if isinstance(st, ast.Assign) and all(isinstance(t, (ast.Name, ast.Tuple)) for t in st.targets):
+                self.exec(st, frame)
+            elif isinstance(st, (ast.Assign, ast.AnnAssign)) and getattr(st, "value", None) is not None:
+                tgt = st.targets[0] if isinstance(st, ast.Assign) else st.target
+                if isinstance(tgt, ast.Attribute) and tgt.attr == attr and isinstance(tgt.value, ast.Name) and tgt.value.id == "self":
+                    if isinstance(st.value, ast.Name) and st.value.id in params:
+                        raise Undecidable(f"{attr} is a constructor argument")
+                    return self.eval(st.value, frame)
+        raise Undecidable(f"constructor value of {attr}")
 
     def eval(self, e, frame):
         m = getattr(self, "e_" + type(e).__name__, None)
@@ -862,6 +928,8 @@ class Interp:
         if isinstance(e.op, ast.Not):
             if isinstance(v, Residual):
                 return Residual(f"not {_wrap(v.text)}")
+            if isinstance(v, Obj):
+                return not self.truth(v)   # (an object of a class with __bool__/__len__ is as true as that method says)
             return not v
         if isinstance(e.op, ast.USub):
             if isinstance(v, Residual):
@@ -1364,6 +1432,8 @@ class Interp:
         if recv is None and meth == "getattr" and len(args) >= 2 and isinstance(args[0], Residual) and isinstance(args[1], str):
             k = f"{args[0].text}.{args[1]}"
             ok, v = self.lookup(k)
+            if not ok and len(args) == 3 and self.idx is not None and self.types.get(args[0].text) and self.idx.lacks_attr(self.types[args[0].text], args[1]):
+                return args[2]   # no instance of that class has such an attribute: the default
             return v if ok else Residual(k)
         if recv is None and meth == "setattr" and len(args) == 3 and isinstance(args[0], (Residual, Obj)) and isinstance(args[1], str) and meth not in frame and dotted(e.args[0]) is not None:
             # setattr(x, "name", v) with a name known here is the assignment x.name = v (property setters and all)
@@ -1431,6 +1501,12 @@ class Interp:
                         return isinstance(args[0], tuple(bt[t.text] for t in ts))
                 if self.isinstance_oracle is not None:
                     return self.isinstance_oracle(self, args, e)
+                if len(args) == 2 and isinstance(args[0], Obj) and self.types.get(args[0].name) and self.idx is not None and self.idx.has_cls(self.types[args[0].name]):
+                    # an abstract object whose class the rule states, tested against classes of the package: the class hierarchy decides
+                    ts = args[1] if isinstance(args[1], (list, tuple)) else [args[1]]
+                    if all(isinstance(t, Residual) and self.idx.has_cls(t.text) and len(self.idx.classes[t.text]) == 1 for t in ts):
+                        fam = {c.name for c in self.idx.mro(self.types[args[0].name])}
+                        return any(t.text in fam for t in ts)
                 return Residual(f"isinstance({', '.join(txt(a) for a in args)})")
             shallow = meth in ("len", "list", "tuple", "enumerate", "zip", "reversed", "bool")
             if any(isinstance(a, (Residual, Obj)) for a in args) or (not shallow and any(
